@@ -48,6 +48,9 @@ def init_strategy(draw):
         "cond": {"area": 1.0, "T": t, "amount": draw(gen.loguniform(50.0, 5000.0)), "x": draw(gen.mid_fraction()), "basis": draw(gen.basis),
                  "Tp": None, "pp": None},
         "comps": _comps(draw),
+        "program": draw(st.one_of(st.none(), st.fixed_dictionaries({
+            "type": st.sampled_from(["polynomial", "polynomial", "exponential", "logarithmic"]), "rate": gen.uniform(-3.0, 3.0),
+            "as_array": st.booleans()}))),
         "length": draw(st.integers(2, 12)),
         "points": pts, "perms": [draw(gen.loguniform(1e-4, 0.3)), draw(gen.loguniform(1e-4, 0.3))],
     }
